@@ -1,5 +1,7 @@
 SPECIFICATION Spec
 CONSTANTS
+  StickyHyphen = FALSE
+  ShippedSetsLink = FALSE
   ShippedCharIds = TRUE
   ShippedLinkBlocks = TRUE
   ShippedTitleCase = TRUE
